@@ -64,9 +64,11 @@ inductive Phase where
   | scheduled | dialing | done
   deriving DecidableEq, Repr
 
-/-- outcome of one `connector_for(x).connect(f)` Deferred -/
+/-- outcome of one `connector_for(x).connect(f)` / `listener_for(x).listen(f)` Deferred -/
 inductive WRes where
-  | pending | ok | failed       -- failed = errback(OldPeerCannotDilateError)
+  | pending | ok
+  | failed                      -- errback(OldPeerCannotDilateError)
+  | valueError                  -- listen(): "Already listening for subprotocol"
   deriving DecidableEq, Repr
 
 structure Listener where
@@ -137,6 +139,9 @@ structure World where
   ts : Terminator.State
   closed : Nat                    -- `B.closed()` calls
   waiters : List WRes
+  wnames : List (Option String)   -- per waiter: `some name` = a listen() for that subprotocol, `none` = a connect()
+  eps : List (Bool × String)      -- endpoint objects the application holds: (is a listener endpoint, subprotocol)
+  registered : List String        -- `SubchannelDemultiplex._factories` (names)
   log : List String
   deriving Repr
 
@@ -146,7 +151,7 @@ def World.init (noListen asyncListen : Bool) (mySide : String) : World :=
     ms := Manager.init, key := false, dver := none, role := none, conn := none, timer := false,
     madeFirst := false, main := .noResult, mainObs := [], fired := false, stoppedObs := 0, nextGen := 0,
     ctors := [], listeners := [], attempts := [], conns := [], queue := [],
-    ts := Terminator.init, closed := 0, waiters := [], log := [] }
+    ts := Terminator.init, closed := 0, waiters := [], wnames := [], eps := [], registered := [], log := [] }
 
 abbrev Res := World × Option Err
 
@@ -408,14 +413,30 @@ def gotVersions (v : Vers) (w : World) : Res :=
 def receivedDilate (m : Msg) (w : World) : Res :=
   if w.hasMgr then receivedMsg m w else ({ w with pMsgs := w.pMsgs ++ [m] }, none)
 
-/-- `DilatedWormhole.connector_for(x).connect(f)`: waits on `_main_channel` -/
-def connect (w : World) : World :=
+/-- `SubchannelConnectorEndpoint.connect(f)` (`nm = none`) / `SubchannelListenerEndpoint.listen(f)`
+    (`nm = some subprotocol`): every call waits on `Manager._main_channel` itself — the endpoint
+    object keeps no state of its own -/
+def connectAs (nm : Option String) (w : World) : World :=
   let id := w.waiters.length
-  let w1 := { w with waiters := w.waiters ++ [WRes.pending] }
+  let w1 := { w with waiters := w.waiters ++ [WRes.pending], wnames := w.wnames ++ [nm] }
   match w1.main with
   | .noResult => { w1 with mainObs := w1.mainObs ++ [id] }
   | .fired => { w1 with queue := w1.queue ++ [Thunk.waiter id true] }
   | .failed => { w1 with queue := w1.queue ++ [Thunk.waiter id false] }
+
+/-- `DilatedWormhole.connector_for(x).connect(f)` on a fresh endpoint -/
+def connect (w : World) : World := connectAs none w
+
+/-- the `when_fired()` Deferred of waiter `id` fires: with the Failure the call fails; with None a
+    connect() goes on to open its subchannel (C13) and a listen() registers its factory
+    (`SubchannelDemultiplex.register`: ValueError if the name is taken) -/
+def resolveWaiter (id : Nat) (ok : Bool) (w : World) : World :=
+  if !ok then { w with waiters := w.waiters.set id .failed } else
+  match w.wnames[id]? with
+  | some (some name) =>
+    if w.registered.contains name then { w with waiters := w.waiters.set id .valueError }
+    else { w with waiters := w.waiters.set id .ok, registered := w.registered ++ [name] }
+  | _ => { w with waiters := w.waiters.set id .ok }
 
 /-! ## Terminator -/
 
@@ -455,7 +476,7 @@ def runThunk (t : Thunk) (w : World) : World :=
   | .discard c => { w with conns := w.conns.modify c fun x => { x with tracked := false } }
   | .mgrLost => (connectionLost w).1                                  -- inside a Deferred: the Failure stays there
   | .stoppedD => (tInput termFuel .stoppedD w).1
-  | .waiter id ok => { w with waiters := w.waiters.set id (if ok then .ok else .failed) }
+  | .waiter id ok => resolveWaiter id ok w
 
 def runThunks : List Thunk → World → World
   | [], w => w
@@ -468,6 +489,9 @@ def turn (w : World) : World := runThunks w.queue { w with queue := [] }
 
 inductive Ev where
   | dilate | key | versions (v : Vers) | msg (m : Msg) | connect
+  | ep (listener : Bool) (name : String)   -- `api.listener_for(name)` / `api.connector_for(name)`: keep the endpoint
+  | econnect (k : Nat)                     -- `.connect(f)` on held endpoint k
+  | elisten (k : Nat)                      -- `.listen(f)` on held endpoint k
   | term (i : Terminator.Input)
   | turn
   | lready (k : Nat)        -- the listen() Deferred of listener k fires (asynchronous endpoints only)
@@ -496,6 +520,15 @@ def step (w : World) : Ev → World × Out
   | .versions v => ofRes (gotVersions v w)
   | .msg m => ofRes (receivedDilate m w)
   | .connect => if w.hasMgr then (connect w, .done) else (w, .refused "no-api")
+  | .ep l name => if w.hasMgr then ({ w with eps := w.eps ++ [(l, name)] }, .done) else (w, .refused "no-api")
+  | .econnect k =>
+    match w.eps[k]? with
+    | none => (w, .refused "no-such")
+    | some (l, _) => if l then (w, .refused "not-connector") else (connectAs none w, .done)
+  | .elisten k =>
+    match w.eps[k]? with
+    | none => (w, .refused "no-such")
+    | some (l, name) => if l then (connectAs (some name) w, .done) else (w, .refused "not-listener")
   | .term i => ofRes (tInput termFuel i w)
   | .turn => (turn w, .done)
   | .lready k =>
@@ -577,6 +610,7 @@ def settle (w : World) : World := turn (turn (loseClosing (List.range w.conns.le
 ```
 new <nolisten 0|1> <async 0|1>
 dilate | key | versions full|nocan|empty|disjoint|emptylist|both | connect | turn
+ep c|l <name> | econnect k | elisten k          (endpoint objects held by the application)
 msg please <side> | msg hints <n> | msg reconnect | msg reconnecting | msg unknown
 t close|nameplate_done|mailbox_done|stoppedRC|stoppedD
 lready k | inbound k | dial j | dialok j | dialfail j | kcm c | lost c
@@ -595,7 +629,7 @@ def showMain : MainRes → String
   | .noResult => "none" | .fired => "ok" | .failed => "err"
 
 def showW : WRes → String
-  | .pending => "pending" | .ok => "ok" | .failed => "err:OldPeerCannotDilateError"
+  | .pending => "pending" | .ok => "ok" | .failed => "err:OldPeerCannotDilateError" | .valueError => "err:ValueError"
 
 def showPhase : Phase → String
   | .scheduled => "s" | .dialing => "d" | .done => "x"
@@ -622,7 +656,7 @@ def showWorld (w : World) : String :=
       s!"M={Manager.State.name w.ms} key={b01 w.key} ver={ver} role={role} conn={conn} timer={b01 w.timer} main={showMain w.main} fired={b01 w.fired}"
     else "M=- key=0 ver=- role=- conn=- timer=0 main=- fired=0"
   let cs := (enumFrom 0 w.ctors).map fun (g, st) => showCtor w g st
-  s!"{mgr} T={Terminator.State.name w.ts} closed={w.closed} D={b01 w.pKey}{b01 w.pVers.isSome}{w.pMsgs.length} W=[{" ".intercalate (w.waiters.map showW)}] C=[{" | ".intercalate cs}]"
+  s!"{mgr} T={Terminator.State.name w.ts} closed={w.closed} D={b01 w.pKey}{b01 w.pVers.isSome}{w.pMsgs.length} W=[{" ".intercalate (w.waiters.map showW)}] E={w.eps.length} R=[{" ".intercalate w.registered}] C=[{" | ".intercalate cs}]"
 
 def readVers? : String → Option Vers
   | "full" => some ⟨true, ["ged"]⟩
@@ -643,6 +677,10 @@ def readEv? : List String → Option Ev
   | ["msg", "reconnecting"] => some (.msg .reconnecting)
   | ["msg", "unknown"] => some (.msg .unknown)
   | ["connect"] => some .connect
+  | ["ep", "c", n] => some (.ep false n)
+  | ["ep", "l", n] => some (.ep true n)
+  | ["econnect", k] => k.toNat?.map .econnect
+  | ["elisten", k] => k.toNat?.map .elisten
   | ["turn"] => some .turn
   | ["t", i] => (Terminator.Input.ofName? i).map .term
   | ["lready", k] => k.toNat?.map .lready
